@@ -38,6 +38,8 @@
 (* CtxWP        VCtxScaleWrite: returns value * factor, writes w := result  *)
 (* SliceCtxW    slice:VCtxScaleWrite:FloatDataCollection (per item; the     *)
 (*              last item's write is what remains under w)                  *)
+(* IncIP        VInPlaceIncrement: adds 1 to the payload in place and      *)
+(*              returns the object it received                             *)
 (* SweepCtxW    sweep over VCtxScaleWrite, parameters {factor: t}: one      *)
 (*              element per step, every step writes w (last one remains)    *)
 (***************************************************************************)
@@ -55,7 +57,7 @@ WithBogus(n)      == [n EXCEPT !.cfg = [x \in (DOMAIN n.cfg) \cup {"bogus"} |->
 
 SourceKinds  == {"Src", "SrcDef", "Src0", "SweepSrc", "SweepSrcCtx", "PSrc", "PSrcInj"}
 FloatInKinds == {"Mul", "MulDef", "Add", "Sq", "Probe", "ProbeP", "Sink", "PSink", "Touch", "CtxW", "CtxWBad", "Boom", "Abort", "SweepMul",
-                 "CtxWP", "SweepCtxW"}
+                 "CtxWP", "SweepCtxW", "IncIP"}
 CollInKinds  == {"SliceMul", "SliceMulDef", "SliceProbe", "Sum", "SliceCtxW"}
 CtxKinds     == {"Rename", "Delete", "Template"}
 ProbeKinds   == {"Probe", "SliceProbe", "ProbeP"}
@@ -88,7 +90,7 @@ InT(n) == IF n.kind \in SourceKinds THEN "none"
           ELSE IF n.kind \in CollInKinds THEN "coll" ELSE "any"
 
 \* "same" = the node passes its input type through
-OutT(n) == IF n.kind \in {"PSrc", "PSrcInj", "Touch", "Src", "SrcDef", "Src0", "Mul", "MulDef", "Add", "Sq", "CtxW", "CtxWBad", "Boom", "Abort", "Sum", "CtxWP"} THEN "float"
+OutT(n) == IF n.kind \in {"PSrc", "PSrcInj", "Touch", "Src", "SrcDef", "Src0", "Mul", "MulDef", "Add", "Sq", "CtxW", "CtxWBad", "Boom", "Abort", "Sum", "CtxWP", "IncIP"} THEN "float"
            ELSE IF n.kind \in {"SweepSrc", "SweepSrcCtx", "SweepMul", "SliceMul", "SliceMulDef", "SliceCtxW", "SweepCtxW"} THEN "coll"
            ELSE "same"
 
@@ -142,6 +144,7 @@ Apply(n, data, ctx, arg) ==
       [] n.kind = "Add" ->
             IF IsNum(arg["addend"]) THEN Ok(Float(data.v + arg["addend"].v), ctx) ELSE Bad("proc", data, ctx)
       [] n.kind = "Sq"   -> Ok(Float(data.v * data.v), ctx)
+      [] n.kind = "IncIP" -> Ok(Float(data.v + 1), ctx)
       [] n.kind = "Probe" -> Ok(data, Set(ctx, n.k1, Num(data.v)))
       [] n.kind = "SliceProbe" -> Ok(data, Set(ctx, n.k1, List(data.items)))
       [] n.kind \in {"Sink", "PSink", "Touch"} -> Ok(data, ctx)
